@@ -4,6 +4,7 @@ package main
 // discharge, triage failures (known findings, replay), print verdict, write evidence.
 
 import (
+	"regexp"
 	"encoding/json"
 	"flag"
 	"fmt"
@@ -138,7 +139,9 @@ func cmdCheck(args []string) int {
 	if *updateClaims {
 		var names []string
 		for _, o := range all {
-			names = append(names, o.Name)
+			if !ordinalName.MatchString(o.Name) {
+				names = append(names, o.Name)
+			}
 		}
 		sort.Strings(names)
 		os.MkdirAll(filepath.Dir(claimFile), 0o755)
@@ -280,6 +283,10 @@ func cmdCheck(args []string) int {
 	}
 	return 0
 }
+
+// obligations named by source-order ordinal (safety checks) are not pinned in the claims file:
+// a harmless edit that adds or removes an index expression renumbers them
+var ordinalName = regexp.MustCompile(`/(index|slice|div|nil|make|assert|panic|pre|conv|overflow|decreases)#\d+$`)
 
 var propNotes = map[string]map[string]interface{}{}
 
